@@ -226,6 +226,9 @@ Definition va_ctx_padding (p:option N) : N := match p with Some v => v | None =>
 Definition va_padding (n:N) : vres N :=
   vlet d := va_sub 4 (N.land n 3) in VOk (N.land d 3).
 
+(* protocols::UDP *)
+Definition va_udp : N := 17.
+
 (* ------------------------------------------------------------------------------------------ lists *)
 (* UnknownAttributes::add: if !contains(value) { make_mut(..).push(value) };  From<&[u16]>: default() then add each *)
 Definition va_ua_add (l:list N) (x:N) : list N := av_ua_add l x.
@@ -258,4 +261,5 @@ Definition va_num_case (fn v:N) : vres (list N) :=
   else if fn =? 15 then VOk [v mod 2]                             (* EvenPort::new(v & 1 == 1).reserve() *)
   else if fn =? 16 then VOk [v mod 128; v mod 512; v mod 256]     (* Icmp::new(type, code, [v as u8; 4]) accessors *)
   else if fn =? 17 then VOk [va_ctx_padding None]                  (* EncoderContext::default().padding() *)
+  else if fn =? 18 then VOk [va_udp]                              (* RequestedTrasport::new(UDP).protocol().as_u8() *)
   else VOk [v].                                                   (* 12, 13: ChannelNumber::number, ResponsePort::as_u16 *)
